@@ -51,6 +51,13 @@ func fpEdited(id string) string {
 		return s
 	}
 	b := fpBase(id)
+	if id == "indepstores" {
+		// two independent stores exchanged: the canonical IR (hence the fingerprint) differs, but the
+		// zipper pairs every instruction: an entry that is `preserved` WITHOUT a fingerprint match
+		out := strings.Replace(b.Src, "\t*p = a\n\t*q = b\n", "\t*q = b\n\t*p = a\n", 1)
+		fpEditCache[id] = out
+		return out
+	}
 	for _, v := range progfam.Edits(b) {
 		if (v.Op == "E1-operator" || v.Op == "E9-small-int") && progfam.Compiles(v.Src) == nil {
 			fpEditCache[id] = v.Src
@@ -168,6 +175,33 @@ func fpInventory(path, src string) (map[string]bool, error) {
 			return true
 		})
 	}
+	// function literals in package-level variable initialisers belong to the synthetic package
+	// initialiser: "init$1", "init$2", ... in source order (the family's initialisers are independent)
+	initLits := 0
+	for _, d := range f.Decls {
+		gd, ok := d.(*ast.GenDecl)
+		if !ok || gd.Tok != token.VAR {
+			continue
+		}
+		for _, sp := range gd.Specs {
+			vs, ok := sp.(*ast.ValueSpec)
+			if !ok {
+				continue
+			}
+			for _, v := range vs.Values {
+				ast.Inspect(v, func(nd ast.Node) bool {
+					if fl, ok := nd.(*ast.FuncLit); ok {
+						initLits++
+						name := fmt.Sprintf("init$%d", initLits)
+						m[name] = true
+						lits(name, fl.Body)
+						return false
+					}
+					return true
+				})
+			}
+		}
+	}
 	for _, d := range f.Decls {
 		fd, ok := d.(*ast.FuncDecl)
 		if !ok || fd.Body == nil {
@@ -196,6 +230,7 @@ func fpRun(t *testing.T, r *vh.Report, prop string) {
 	configs := []fpConfig{
 		{"loops+branch+closure", []string{"upcount", "upcount", "ifelse", "closure"}},
 		{"strings+method+recursion", []string{"strings", "strings", "method", "recursion"}},
+		{"zipper-preserved", []string{"indepstores", "upcount", "indepstores", "strings"}},
 	}
 	if vh.Thorough() {
 		configs = append(configs,
@@ -227,6 +262,9 @@ func fpRun(t *testing.T, r *vh.Report, prop string) {
 	for ci, cfg := range configs {
 		for code := 0; code < 256; code++ {
 			for ai, added := range addedPool {
+				if cfg.name == "zipper-preserved" && ai > 0 && !vh.Thorough() {
+					continue
+				}
 				if len(added) == 1 && strings.HasPrefix(added[0], "~") {
 					// a near copy only competes with renamed functions: codes without a rename add nothing
 					hasRename := false
@@ -314,6 +352,17 @@ func fpRun(t *testing.T, r *vh.Report, prop string) {
 				oldSrc := render(oldF)
 				side = "new"
 				newSrc := render(newF)
+				// package-level function literals (hooks, tables of handlers): they live below the
+				// synthetic initialiser; every fifth case the new file gains one more
+				if (code+ai)%2 == 0 {
+					pkgLits := "\nvar HookVar = func(v int) int {\n\tg := func() int { return v * 2 }\n\treturn g() + 1\n}\n\nvar TableVar = map[string]func(int) int{\n\t\"dec\": func(v int) int { return v - 1 },\n}\n"
+					oldSrc += pkgLits
+					newSrc += pkgLits
+					if code%5 == 0 {
+						newSrc += "\nvar LateVar = func(z string) string { return z + \"?\" }\n"
+					}
+					key += "/package-level-literals"
+				}
 				op, np := filepath.Join(dir, od, "f.go"), filepath.Join(dir, nd, "f.go")
 				os.WriteFile(op, []byte(oldSrc), 0o644)
 				os.WriteFile(np, []byte(newSrc), 0o644)
